@@ -333,8 +333,10 @@ func c02SavedSize(c *Ctx) {
 					for _, wc := range callsIn(f, idIs("trzsz.writeAll")) {
 						w := wc.(*ssa.Call)
 						if sameValue(w.Call.Args[1], data) && domI(w, ci.(ssa.Instruction)) {
-							// on the err == nil edge
-							if isNil, _ := factNil(factsAt(ci.Block()), w); isNil {
+							// on the err == nil edge, and written to the destination itself (the stage's file), not into a
+							// buffer in front of it: what is counted must be what the file has been handed
+							toFile := isVar("file")(w.Call.Args[0])
+							if isNil, _ := factNil(factsAt(ci.Block()), w); isNil && toFile {
 								written = true
 							}
 						}
